@@ -85,6 +85,35 @@ theorem udpFinishClose_inv (sc : Script) (ph : Phase) (id : Nat) (s : State) (hi
   unfold udpFinishClose
   apply udpRunCompleted_inv; simpa using hi
 
+theorem streamIo_inv (sc : Script) (ph : Phase) (id : Nat) (s : State) (hi : SInv s) : SInv (streamIo sc ph id s) := by
+  unfold streamIo
+  split
+  · exact hi
+  · split
+    · exact hi
+    · apply runCb_inv
+      simp only [SInv_ioStop]
+      have : SInv (modH s id fun h => { h with connReq := none }) := by simpa using hi
+      exact this
+
+theorem streamDestroy_inv (sc : Script) (id : Nat) (s : State) (hi : SInv s) : SInv (streamDestroy sc id s) := by
+  unfold streamDestroy
+  split
+  · exact hi
+  · split
+    · exact hi
+    · simp only [SInv_modH]
+      apply runCb_inv
+      exact hi
+
+theorem pendingIo_inv (sc : Script) (ph : Phase) (id : Nat) (s : State) (hi : SInv s) : SInv (pendingIo sc ph id s) := by
+  unfold pendingIo
+  split
+  · exact hi
+  · split
+    · exact udpIo_inv _ _ _ _ _ hi
+    · exact streamIo_inv _ _ _ _ hi
+
 theorem runPendingLoop_inv (sc : Script) (ph : Phase) (fuel : Nat) (s : State) (hi : SInv s) :
     SInv (runPendingLoop sc ph fuel s) := by
   induction fuel generalizing s with
@@ -94,7 +123,7 @@ theorem runPendingLoop_inv (sc : Script) (ph : Phase) (fuel : Nat) (s : State) (
     split
     · exact hi
     · apply ih
-      apply udpIo_inv
+      apply pendingIo_inv
       exact SInv.of_sig (s := s) rfl hi
 
 theorem runPending_inv (sc : Script) (ph : Phase) (s : State) (hi : SInv s) : SInv (runPending sc ph s) := by
@@ -249,11 +278,15 @@ theorem finishClose_inv (sc : Script) (id : Nat) (s : State) (hi : SInv s) : SIn
   · rename_i h _
     simp only
     have h1 : SInv (withKernel s id setClosed) := Steps.inv ⟨CStep.setClosed _ _, rfl⟩ hi
-    have h2 : SInv (if h.kind == .udp then udpFinishClose sc .closing id (withKernel s id setClosed) else withKernel s id setClosed) := by
+    have h2 : SInv (if h.kind == .udp then udpFinishClose sc .closing id (withKernel s id setClosed)
+        else if h.kind == .pipe || h.kind == .tcp then streamDestroy sc id (withKernel s id setClosed) else withKernel s id setClosed) := by
       split
       · exact udpFinishClose_inv _ _ _ _ h1
-      · exact h1
-    have h3 : SInv (withKernel (if h.kind == .udp then udpFinishClose sc .closing id (withKernel s id setClosed) else withKernel s id setClosed) id handleUnref) :=
+      · split
+        · exact streamDestroy_inv _ _ _ h1
+        · exact h1
+    have h3 : SInv (withKernel (if h.kind == .udp then udpFinishClose sc .closing id (withKernel s id setClosed)
+        else if h.kind == .pipe || h.kind == .tcp then streamDestroy sc id (withKernel s id setClosed) else withKernel s id setClosed) id handleUnref) :=
       Steps.inv ⟨CStep.unref _ _, rfl⟩ h2
     split
     · exact h3
